@@ -350,15 +350,28 @@ func quasiSafePrimeRule(P *Program, R *Report) {
 			if !ok {
 				return false
 			}
-			for _, pr := range [][2]ssa.Value{{x, y}, {y, x}} {
-				c, isC := pr[0].(*ssa.Call)
-				if !isC || bigMethod(c) != "GCD" || desc(c.Call.Args[3]) != "arg#0" {
+			bo, _ := a.V.(*ssa.BinOp)
+			if bo == nil {
+				return false
+			}
+			cmp, _ := stripConv(bo.X).(*ssa.Call)
+			if cmp == nil {
+				cmp, _ = stripConv(bo.Y).(*ssa.Call)
+			}
+			if cmp == nil || bigMethod(cmp) != "Cmp" {
+				return false
+			}
+			ts := P.bigEval(cmp.Parent()).at(cmp)
+			for k, pr := range [][2]ssa.Value{{x, y}, {y, x}} {
+				// one operand is the result of GCD(_, _, N, i) computed in this iteration: the call itself, or the object
+				// it wrote (its receiver) with no later writer before the comparison
+				g := lastWriterBefore(pr[0], cmp)
+				if g == nil || bigMethod(g) != "GCD" || desc(g.Call.Args[3]) != "arg#0" || !l.Body[g.Block()] {
 					continue
 				}
-				if k, isK := pr[1].(*ssa.Call); isK && isCallTo(k, "big.NewInt") {
-					if v, okv := constInt(k.Call.Args[0]); okv && v == 1 {
-						return true
-					}
+				// the other is the constant one
+				if len(ts) == 2 && ts[1-k].equal(tconst(1)) {
+					return true
 				}
 			}
 			return false
@@ -654,6 +667,25 @@ func isStructureCallOn(a Atom, argDescs ...string) bool {
 }
 
 func isProofTypeName(n string) bool { return strings.HasSuffix(n, "Proof") }
+
+// lastWriterBefore: the big.Int mutator call that last wrote the object v denotes before instruction `at`: v itself
+// when v is such a call's result, else the closest earlier mutator of the same object in at's block.
+func lastWriterBefore(v ssa.Value, at ssa.Instruction) *ssa.Call {
+	if c, ok := v.(*ssa.Call); ok && bigMethod(c) != "" && bigMutators[bigMethod(c)] {
+		return c
+	}
+	site := siteOf(v)
+	var last *ssa.Call
+	for _, i := range at.Block().Instrs {
+		if i == at {
+			break
+		}
+		if c, ok := i.(*ssa.Call); ok && bigMethod(c) != "" && bigMutators[bigMethod(c)] && len(c.Call.Args) > 0 && siteOf(c.Call.Args[0]) == site {
+			last = c
+		}
+	}
+	return last
+}
 
 func keyproofSafetyRule(P *Program, R *Report) {
 	rule := "C17.f"
